@@ -515,6 +515,36 @@ pub fn scenarios(tier: &str) -> Vec<Scenario> {
             }
         }
     }
+    // triples: a malformed message behind an in-flight (pending) request and in front of a
+    // well-formed one, and a malformed message directly in front of a well-formed one: nothing
+    // after the point of rejection may reach the application, however long the rejection waits
+    // in the pipeline
+    {
+        let get = pick(&["GET"])[0].1.clone();
+        let svc = &services[0].1;
+        for (n2, r2) in mal.iter() {
+            for pend in [false, true] {
+                add(format!("readall:GET+{n2}+GET/p{}", pend as u8), vec![get.clone(), r2.clone(), get.clone()], svc.as_ref(), pend);
+            }
+            add(format!("readall:{n2}+GET/p0"), vec![r2.clone(), get.clone()], svc.as_ref(), false);
+        }
+        // pipelines longer than the dispatcher's queue of decoded messages (16), in one segment
+        for n in [17usize, 18, 20, 34] {
+            for pend in [false, true] {
+                add(format!("readall:GETx{n}/p{}", pend as u8), (0..n).map(|_| get.clone()).collect(), svc.as_ref(), pend);
+            }
+        }
+    }
+    // ... and the same with a peer that keeps the connection open (no FIN ever wakes the task)
+    for n in [18usize, 34] {
+        let get = pick(&["GET"])[0].1.clone();
+        let reqs = renumber((0..n).map(|_| get.clone()).collect());
+        let progs: Vec<HandlerProgram> = (0..n).map(|i| if i == 0 { services[0].1().pend(1) } else { services[0].1() }).collect();
+        let mut s = Scenario::new(&format!("readall:GETx{n}/p1/peer-stays"), reqs, progs);
+        s.env.budgets = budgets.clone();
+        s.fin = FinPlan::Never;
+        out.push(s);
+    }
     // thorough: every byte offset of the stream is a read cut (one deviation)
     if tier == "thorough" {
         let svc = &services[0].1;
@@ -656,7 +686,9 @@ pub fn check(sc: &Scenario, ex: &Exec, a: &Analysis) -> Vec<Violation> {
     let finals_all = a.finals();
     let closed_before = |k: usize| finals_all.iter().take(k).any(|r| r.says_close() || (r.version == 0 && !r.says_keep_alive()));
     let expect_dispatched = (0..expect_dispatched).take_while(|&k| !closed_before(k)).count();
-    if ex.done.is_some() && a.dispatched.len() < expect_dispatched && !oversized {
+    // (judged when the connection has ended, or — with a peer that never half-closes — when the
+    // execution went quiescent with every byte delivered: nothing more will ever arrive)
+    if (ex.done.is_some() || sc.fin == FinPlan::Never) && a.dispatched.len() < expect_dispatched && !oversized {
         v.push(viol(P, "a", "request-not-delivered", format!("the stream holds {expect_dispatched} requests before any rejection point but the application saw {}", a.dispatched.len())));
     }
     // (c) malformed message: answered with a 4xx and the connection closed
